@@ -44,7 +44,11 @@ extern void *pdgstrf_expand(int_t *, MemType, int_t, int_t, GlobalLU_t *);
 static int vh_w = 1, vh_maxsup = 1, vh_rowblk = 1;
 int_t sp_ienv(int_t i) { return i == 1 ? vh_w : i == 3 ? vh_maxsup : i == 4 ? vh_rowblk : 1; }
 
+#if OP == 8
+static char *buf;     /* OP 8: the caller's buffer holds ARBITRARY bytes (a recycled buffer), see main */
+#else
 static _Alignas(8) char buf[SIZE + 16];
+#endif
 static long gh0, gh1, gt0, gt1;      /* ghost head block [gh0,gh1), ghost tail block [gt0,gt1) (offsets) */
 
 static int inv(void)
@@ -64,13 +68,25 @@ static int disjoint_from_ghosts(void *p, long len)
 
 VH_MAIN
 {
+#if OP == 8
+    _Alignas(8) char storage[SIZE + 16];    /* uninitialised: arbitrary contents for the solver */
+#endif
     int base = vh_int_in(0, 7);          /* the caller's buffer may start at any alignment */
+#if OP == 8
+    buf = storage;
+#ifndef VH_CBMC
+    memset(storage, 0xA5, sizeof storage);  /* native replay: some non-zero garbage */
+#endif
+#endif
     int_t size = vh_int_in(0, SIZE);
     whichspace = USER;
     stack.array = buf + base; stack.size = size;
     stack.top1 = vh_int(); stack.top2 = vh_int(); stack.used = vh_int();
     gh0 = vh_int(); gh1 = vh_int(); gt0 = vh_int(); gt1 = vh_int(); tail_users = vh_int();
     vh_assume(inv());
+#if OP == 8
+    vh_assume(stack.top1 == 0 && stack.top2 == size && gt0 == gt1 && gh0 == gh1 && tail_users == 0);   /* first worker on a fresh stack: the subject here is the CONTENTS */
+#endif
 #if OP == 1      /* ?user_malloc at either end */
     {
         int_t bytes = vh_int_in(0, SIZE + 8), end = vh_int_in(0, 1);
@@ -119,6 +135,24 @@ VH_MAIN
         vh_assert(stack.top1 >= 0 && stack.top1 <= stack.top2 && stack.top2 <= stack.size &&
                   stack.used == stack.top1 + (stack.size - stack.top2) && gt1 <= stack.size && gh1 <= stack.top1 &&
                   (r != 0 || gt0 >= stack.top2), "representation invariant preserved");
+    }
+#elif OP == 8    /* what the worker starts on: WorkInit + the two Set*Work routines on a buffer with arbitrary old contents.
+                    "results match the internally-allocated mode": the arrays the factorization reads before writing
+                    (dense[], tempv[]: accumulated into; repfnz[]: tested against EMPTY) are cleared whatever the buffer held */
+    {
+        int_t n = vh_int_in(1, 2), w = 1;
+        int_t *iw = 0; double *dw = 0, *dense = 0, *tempv = 0;
+        int_t *segrep, *parent, *xplore, *repfnz, *panel_lsub, *marker, *lbusy, r, k, nt;
+        vh_w = w; vh_maxsup = vh_int_in(1, 2); vh_rowblk = vh_int_in(1, 2);
+        nt = SUPERLU_MAX(2 * n, (vh_maxsup + vh_rowblk) * w);
+        r = pdgstrf_WorkInit(n, w, &iw, &dw);
+        vh_assume(r == 0 && ((unsigned long)iw & 3) == 0);   /* a refused request is OP 3's subject; an lwork that leaves the integer array misaligned is the caller's error on x86-tolerant terms and is left out */
+        pxgstrf_SetIWork(n, w, iw, &segrep, &parent, &xplore, &repfnz, &panel_lsub, &marker, &lbusy);
+        pdgstrf_SetRWork(n, w, dw, &dense, &tempv);
+        vh_assert(dense == dw && tempv == dw + n * w && repfnz == iw + 4 * n, "work arrays carved out of the storage WorkInit returned");
+        for (k = 0; k < n * w; ++k) vh_assert(dense[k] == 0.0, "dense[] starts out as zeros whatever the caller's buffer held");
+        for (k = 0; k < nt; ++k) vh_assert(tempv[k] == 0.0, "tempv[] starts out as zeros whatever the caller's buffer held");
+        for (k = 0; k < n * w; ++k) vh_assert(repfnz[k] == EMPTY, "repfnz[] starts out EMPTY whatever the caller's buffer held");
     }
 #elif OP == 4    /* a thread gives its work storage back while ANOTHER thread's work storage is live */
     {
